@@ -116,6 +116,7 @@ Definition assemble (t : wtag) (b : cbody) : res geom :=
   | TPoint, C1 [] => Err IndexError
   | TLine, C1 l => Ok (GLine l)
   | TMPoint, C1 l => Ok (GMPoint l)
+  | TMPoint, C2 l => Ok (GMPoint (concat l))   (* the OGC form, one parenthesised coordinate per point (repair D41) *)
   | TMLine, C2 l => Ok (GMLine l)
   | TPoly, C2 l => match assemble_polygon l with Ok p => Ok (GPoly p) | Err e => Err e end
   | TMPoly, C3 l => match mapR assemble_polygon l with Ok ps => Ok (GMPoly ps) | Err e => Err e end
@@ -133,6 +134,7 @@ Definition gate (t : wtag) (w : wkt) : bool :=
       match t, w_body w with
       | TPoint, W1 [c] => arity_ok c
       | TLine, W1 l | TMPoint, W1 l => nonempty l && forallb arity_ok l
+      | TMPoint, W2 l => nonempty l && forallb (fun r => match r with [c] => arity_ok c | _ => false end) l
       | TPoly, W2 l | TMLine, W2 l => nonempty l && forallb (fun r => nonempty r && forallb arity_ok r) l
       | TMPoly, W3 l =>
           nonempty l && forallb (fun p => nonempty p && forallb (fun r => nonempty r && forallb arity_ok r) p) l
@@ -397,6 +399,14 @@ Definition gate_re (t : wtag) : re :=
   | TMLine => RSeq [RBol; lit "MULTILINESTRING"; re_zm_opt; re_rings; REol]
   end.
 
+(* _RE_MULTIPOINT_NESTED_WKT (repair D41): the OGC form, one parenthesised coordinate per point
+   "^MULTIPOINT" zm "\((?:\s?\(\s?" coord "\s?\)\s?\,?)+\)$" *)
+Definition re_mpoint_nested : re :=
+  RSeq [RBol; lit "MULTIPOINT"; re_zm_opt; RSet false [CChar (ch "(")];
+        RRep 1 None (RSeq [sp_opt; RSet false [CChar (ch "(")]; sp_opt; re_coord; sp_opt; RSet false [CChar (ch ")")];
+                           sp_opt; opt (RSet false [CChar (ch ",")])]);
+        RSet false [CChar (ch ")")]; REol].
+
 (* "^(?:(?:MULTI)?(?:(?:POINT)|(?:POLYGON)|(?:LINESTRING)))\s?([ZM]{1,2})\s?"   (case-sensitive) *)
 Definition re_zm : re :=
   RSeq [RBol; opt (lit "MULTI"); RAlt [lit "POINT"; lit "POLYGON"; lit "LINESTRING"]; sp_opt;
@@ -463,11 +473,7 @@ Inductive dbody := D1 (l : list dcoord) | D2 (l : list (list dcoord)) | D3 (l : 
 
 Definition nth0 {A} (l : list A) : sum cerr A := match l with a :: _ => inr a | [] => inl (EPy IndexError) end.
 
-Definition scan (t : wtag) (s : str) : sum cerr dbody :=
-  match re_match true (gate_re t) s with
-  | None => inl EFuel
-  | Some false => inl (EPy ValueError)
-  | Some true =>
+Definition scan_body (nested : bool) (t : wtag) (s : str) : sum cerr dbody :=
       match findall false re_zm s with
       | None => inl EFuel
       | Some zms =>
@@ -484,10 +490,14 @@ Definition scan (t : wtag) (s : str) : sum cerr dbody :=
           | TLine | TMPoint =>
               match lift (findall false re_ring s) with
               | inl e => inl e
-              | inr rs => match nth0 rs with
-                          | inl e => inl e
-                          | inr r => match ring_from_text order r with inl e => inl e | inr l => inr (D1 l) end
-                          end
+              | inr rs =>
+                  if nested
+                  then (* every "(x y)" group is found as a ring of one coordinate; the coordinates are concatenated *)
+                       match mapS (ring_from_text order) rs with inl e => inl e | inr l => inr (D1 (concat l)) end
+                  else match nth0 rs with
+                       | inl e => inl e
+                       | inr r => match ring_from_text order r with inl e => inl e | inr l => inr (D1 l) end
+                       end
               end
           | TPoly | TMLine =>
               match lift (findall false re_ring s) with
@@ -507,6 +517,21 @@ Definition scan (t : wtag) (s : str) : sum cerr dbody :=
                   end
               end
           end
+      end.
+
+(* the validating regex of the type; MultiGeoPoint.from_wkt tries the flat form, then the nested one *)
+Definition scan (t : wtag) (s : str) : sum cerr dbody :=
+  match re_match true (gate_re t) s with
+  | None => inl EFuel
+  | Some true => scan_body false t s
+  | Some false =>
+      match t with
+      | TMPoint => match re_match true re_mpoint_nested s with
+                   | None => inl EFuel
+                   | Some true => scan_body true t s
+                   | Some false => inl (EPy ValueError)
+                   end
+      | _ => inl (EPy ValueError)
       end
   end.
 
